@@ -40,9 +40,55 @@ def last_position(p, recv):
 def run(ctx):
     _run(ctx)
     reader_seek_rule(ctx, ctx.facts("default"))
+    reader_state_rule(ctx, ctx.facts("default"))
     ctx.delegate("C14", ["C14.seek", "C14.one", "C14.end"], "C15.iter",
                  "an iteration begun at a position yields exactly the records from there on: one index entry per item, a seek "
                  "whenever the entry's offset differs from the tracked position, the end when the index is exhausted", floor=5)
+
+def reader_state_rule(ctx, F):
+    """C15.R6: random access and counting leave no trace in the reader besides the source position"""
+    ctx.rule("C15.R6", "read_nth_shape_as / shape_count change no field of the reader: whatever they store is, at the end of every "
+                       "path, what the constructors put there (so a later iteration or access cannot depend on them)", floor=2)
+    ctor = {}
+    for cname in ("new", "with_shx"):
+        fs = F.inherent_method("reader::ShapeReader", cname)
+        if fs:
+            try:
+                for p in util.run_fn(F, fs[0], inline=lambda g, t: False)[0]:
+                    r = agg_field(p.ret, '0') if is_agg(p.ret, None, 'Ok') else None
+                    if is_agg(r):
+                        for k, v in r[4]:
+                            ctor.setdefault(k, set()).add(v)
+            except absint.Unanalysable:
+                pass
+    for mname in ("read_nth_shape_as", "shape_count"):
+        fs = F.inherent_method("reader::ShapeReader", mname)
+        if not fs:
+            ctx.missing("C15.R6", "ShapeReader::%s" % mname)
+            continue
+        try:
+            ps, _ = util.run_fn(F, fs[0], inline=lambda g, t: g["kind"] == "Closure" or not (
+                g["def"].startswith(("record::", "header::", "<record::", "<header::")) or "read_one_shape" in g["def"]))
+        except absint.Unanalysable as e:
+            ctx.unanalysable("C15.R6", mname, str(e))
+            continue
+        bad = set()
+        for p in ps:
+            if p.status != 'return':
+                continue
+            last = {}
+            for e in absint.flat_effects(p.eff):
+                if e[0] == 'store' and e[1][0] == SELF and e[1][1] and e[1][1][0][0] == 'f':
+                    last[e[1][1][0][1]] = e[2]
+            src_field = source_field(F)[0]
+            for fld, v in last.items():
+                if fld == src_field:
+                    continue            # the source itself: its position is what R0-R2 decide
+                if v not in ctor.get(fld, ()):
+                    bad.add("field `%s` is left holding %s" % (fld, absint.term_str(v)[:50]))
+        ctx.ob("C15.R6", mname, not bad, "; ".join(sorted(bad)) or "no reader field is changed (%d paths)" % len(ps),
+               site=ctx.site_of(F, fs[0]["def"]), key="C15.R6|%s" % mname)
+
 
 def reader_seek_rule(ctx, F):
     """C15.R5: the complete reader's seek moves shapes and rows together or not at all"""
